@@ -3,6 +3,7 @@ CONSTANTS
   NLines = 2
   Dev = {}
   Lvls = {TRUE}
+  TwoPhase = FALSE
   Grain = "seam"
 SPECIFICATION Spec
 INVARIANT InvExactlyOnce
